@@ -4,5 +4,5 @@ CONSTANTS
   Tier = "quick"
   SecretRels = {"same", "diff"}
   Bug = {}
-INVARIANTS TypeOK SameSession ResumesBothWays WrongSecretFails PublicFormHidesSecret PolicyRoundTrips
+INVARIANTS TypeOK SameSession ResumesBothWays ResumesByCommand WrongSecretFails PublicFormHidesSecret PolicyRoundTrips
 CHECK_DEADLOCK FALSE
